@@ -348,8 +348,8 @@ theorem runExpr_step2 (ih : IH2 env f) (n : Node) : EOK env (runExpr env (f+1) n
     intro q hq
     simp only [In, posOf, List.mem_cons, List.mem_append]
     rcases hq with hq | hq
-    · exact Or.inr (Or.inr (Or.inl hq))
-    · exact Or.inr (Or.inr (Or.inr hq))
+    · exact Or.inr (Or.inl hq)
+    · exact Or.inr (Or.inr hq)
   case forS ini c l body p =>
     have hl : EOK env (for2 env f c l body) (In (.forS ini c l body p)) := by
       refine (ih.loop c l body).mono ?_
